@@ -75,6 +75,9 @@ fn main() {
 			Ok(s) => s,
 			Err(_) => format!("panic {}", LAST_PANIC.with(|p| p.borrow().clone())),
 		};
+		// an answer of many megabytes (a length that was not clamped somewhere) is cut: its class and its first
+		// megabytes are all the comparison needs, and the reader must not be made to swallow gigabytes
+		let ans = if ans.len() > (4 << 20) { let mut cut = 4 << 20; while !ans.is_char_boundary(cut) { cut -= 1; } format!("{} …CUT({} bytes)", &ans[..cut], ans.len()) } else { ans };
 		let mut o = stdout.lock();
 		writeln!(o, "{}", ans).unwrap();
 		o.flush().unwrap();
